@@ -70,11 +70,11 @@ Section Oversize.
 
   Lemma big_final_fields_wf : big -> forallb (wf_field true) (final_fields r) = true.
   Proof.
-    intros G. destruct (big_parts G) as (_ & H2 & _).
+    intros G. destruct (big_parts G) as (_ & H2 & Hfr & _).
     destruct (wf_msg_parts _ _ _ _ H2) as (_ & _ & _ & _ & H6).
     apply wf_fields_weaken in H6. unfold final_fields.
     destruct (framing_field r) as [[pos f]|] eqn:E; [|exact H6].
-    apply forallb_insert_at; [exact (framing_field_wf r pos f E) | exact H6].
+    apply forallb_insert_at; [exact (framing_field_wf ishead r pos f Hfr E) | exact H6].
   Qed.
 
   Lemma big_no_framing_names : big -> p_framing r <> FrNone ->
@@ -129,13 +129,13 @@ Section Oversize.
     unfold select_framing. rewrite Hish, Hst, Hhs. unfold st_exp. rewrite bodiless_model.
     unfold wf_framing in Hfr. unfold hs_exp, final_fields, framing_field.
     unfold resp_body in Hlim.
-    destruct (p_framing r) as [|pos|pos cs ld le tr|] eqn:Efr.
+    destruct (p_framing r) as [|pos ds|pos cs ld le tr|] eqn:Efr.
     - (* no body: cannot be oversized *)
       rewrite lenN_nil in Hlim. lia.
     - (* Content-Length *)
       apply andb_true_iff in Hfr. destruct Hfr as [Hnb Hlen]. apply negb_true_iff in Hnb. rewrite Hnb.
-      apply N.ltb_lt in Hlen. specialize (Hnames ltac:(discriminate)).
-      set (f := mkF name_clen (dec (lenN (p_body r))) [SP] []).
+      destruct (wf_clen_parts _ _ Hlen) as (Dne & Dv & Hlen64). specialize (Hnames ltac:(discriminate)).
+      set (f := mkF name_clen ds [SP] []).
       change hdr_transfer_encoding with name_te. change hdr_content_length with name_clen.
       rewrite (findheader_none (insert_at pos f (m_fields (p_final r))) name_te).
       2:{ intros g Hg. destruct (in_insert_at _ _ _ _ Hg) as [-> | Hg']; [reflexivity | apply (Hnames g Hg')]. }
@@ -143,7 +143,7 @@ Section Oversize.
       rewrite (findheader_insert f name_clen eq_refl pos (m_fields (p_final r))).
       2:{ intros g Hg. apply (Hnames g Hg). }
       cbn [f_value f]. change clen_base with 10. change (negb (clen_trailing =? 0)) with false.
-      rewrite (parse_dec _ Hlen). cbn [bind]. unfold get_body_gotclen.
+      rewrite (parse_clen _ _ Dne Dv Hlen64). cbn [bind]. unfold get_body_gotclen.
       replace (h_max h <? lenN (p_body r)) with true by (symmetry; apply N.ltb_lt; lia).
       eexists. split; [reflexivity|]. rewrite Hbig. reflexivity.
     - (* chunked *)
@@ -507,15 +507,16 @@ Proof.
 Qed.
 
 (* the three framings spelled out (whole response in one read into a fresh reader) *)
-Theorem oversized_clen stale limit ishead r pos e :
-  wf_response ishead r = true -> p_framing r = FrClen pos -> limit < lenN (p_body r) ->
+Theorem oversized_clen stale limit ishead r pos ds e :
+  wf_response ishead r = true -> p_framing r = FrClen pos ds -> limit < lenN (p_body r) ->
   http_response_run repo_terminated stale init_rdr limit ishead (mkNet [render r] e)
   = Ok (Done [CbResp (Z.of_N (m_status (p_final r))) (map nv (final_fields r)) true size_max []]).
 Proof.
   intros Hwf Efr Hl.
   assert (H64 : lenN (p_body r) < two64).
   { unfold wf_response in Hwf. rewrite !andb_true_iff in Hwf. destruct Hwf as [[[[_ _] H3] _] _].
-    unfold wf_framing in H3. rewrite Efr in H3. apply andb_true_iff in H3. apply N.ltb_lt. apply H3. }
+    unfold wf_framing in H3. rewrite Efr in H3. apply andb_true_iff in H3. destruct H3 as [_ H3].
+    apply (wf_clen_parts _ _ H3). }
   apply (oversized_body_reported stale init_rdr limit ishead r [render r] e); try assumption.
   - unfold resp_body. rewrite Efr. exact Hl.
   - lia.
@@ -589,13 +590,13 @@ Proof. repeat split; vm_compute; reflexivity. Qed.
 
 (* the runs below are computed, not derived from the theorem *)
 
-(* Content-Length 6, limit 5 = |body| - 1: byte by byte; in one read with a connection error after it;
+(* Content-Length 6 written "006", limit 5 = |body| - 1: byte by byte; in one read with a connection error after it;
    and the header block alone on a connection that then stalls - the report comes from the header *)
 Example ex_clen_oversized :
   http_response_run repo_terminated 0 init_rdr 5 false (mkNet (map (fun b => [b]) (render ex_clen)) EndEof)
     = Ok (Done [oversized ex_clen]) /\
   http_response_run repo_terminated 0 init_rdr 5 false (mkNet [render ex_clen] EndErr)
-    = Ok (Done [CbResp 404 [([65], [49]); (name_clen, [54])] true size_max []]) /\
+    = Ok (Done [CbResp 404 [([65], [49]); (name_clen, [48; 48; 54])] true size_max []]) /\
   http_response_run repo_terminated 0 init_rdr 5 false
     (mkNet [render_head (p_final ex_clen) (final_fields ex_clen)] EndStall) = Ok (Done [oversized ex_clen]).
 Proof. repeat split; vm_compute; reflexivity. Qed.
